@@ -426,7 +426,7 @@ func c18RunGate(g c18Gate) (drv.Result, string) {
 				}
 				close(hold)
 			}()
-			return &cbsim.Action{Hold: hold}
+			return &cbsim.Action{Hold: hold, Async: true}
 		}
 		once.Do(func() { close(second) })
 		return nil
